@@ -16,6 +16,10 @@ use bytestring::ByteString;
 use vh_core::{catch, fnv, json, Args, Report, Rng, Value};
 
 const ALPHABET: [u8; 12] = [b'A', 0x7F, 0xC3, 0xA9, 0xE2, 0x82, 0xAC, 0xF0, 0x9F, 0x98, 0x80, 0xFF];
+/// Second alphabet: the first and last byte of every UTF-8 byte class (continuation 80/BF, two-byte leads C2/DF,
+/// three-byte leads E0 (with its smallest second byte A0) and EF, four-byte leads F0 (smallest second byte 90) and F4
+/// (largest second byte 8F)), where range checks written by hand go wrong.
+const ALPHABET2: [u8; 12] = [b'A', 0x80, 0xBF, 0xC2, 0xDF, 0xE0, 0xA0, 0xEF, 0xF0, 0x90, 0xF4, 0x8F];
 
 struct Fail {
     sig: String,
@@ -344,8 +348,14 @@ pub fn run(args: &Args, rep: &mut Report) {
 
     // exhaustive over the alphabet
     let mut idx = 0u64;
+    for (which, alphabet) in [ALPHABET, ALPHABET2].iter().enumerate() {
+    // the interpreter walks the second alphabet one length shorter
+    let maxlen = if which == 1 && !native { maxlen.saturating_sub(1) } else { maxlen };
     for len in 0..=maxlen {
-        let total = (ALPHABET.len() as u64).pow(len as u32);
+        if which == 1 && len == 0 {
+            continue;
+        }
+        let total = (alphabet.len() as u64).pow(len as u32);
         for n in 0..total {
             let my = args.mine(idx);
             idx += 1;
@@ -355,7 +365,7 @@ pub fn run(args: &Args, rep: &mut Report) {
             let mut x = n;
             let input: Vec<u8> = (0..len)
                 .map(|_| {
-                    let b = ALPHABET[(x % 12) as usize];
+                    let b = alphabet[(x % 12) as usize];
                     x /= 12;
                     b
                 })
@@ -365,12 +375,13 @@ pub fn run(args: &Args, rep: &mut Report) {
             rep.sample_spread(|| json!({"bytes_hex": format!("{input:02x?}"), "valid": std::str::from_utf8(&input).is_ok()}));
         }
     }
+    }
     rep.add("exhaustive_inputs_all_shards", idx);
     rep.max("max_exhaustive_len", maxlen as u64);
 
     // random longer inputs: valid text of mixed widths, with and without one corrupted byte
     let mut rng = Rng::new(args.seed ^ 0xC20).fork(args.shard);
-    let pool = ['a', 'Z', '\u{7f}', 'é', 'ß', '€', '→', '😀', '𝄞', '\u{0}', '\n'];
+    let pool = ['a', 'Z', '\u{7f}', 'é', 'ß', '€', '→', '😀', '𝄞', '\u{0}', '\n', '\u{80}', '¿', '\u{7ff}', '\u{800}', '\u{ffff}', '\u{10000}', '\u{10ffff}', '\u{fffd}'];
     for i in 0..n_random {
         if !args.mine(i) {
             continue;
@@ -397,7 +408,7 @@ pub fn run(args: &Args, rep: &mut Report) {
 
     rep.exhaustive = true;
     rep.rule = format!(
-        "every byte string of length <= {maxlen} over {{'A',7F,C3,A9,E2,82,AC,F0,9F,98,80,FF}} through every constructor \
+        "every byte string of length <= {maxlen} over {{'A',7F,C3,A9,E2,82,AC,F0,9F,98,80,FF}} and over the class-boundary bytes {{'A',80,BF,C2,DF,E0,A0,EF,F0,90,F4,8F}} through every constructor \
          (&[u8], Vec<u8>, Bytes, Bytes window into a larger shared buffer, BytesMut, [u8;N], &[u8;N]; for valid ones also &str, String, Box<str>, from_static, new/default); \
          for each produced value: str::from_utf8 invariant, Deref/Borrow/AsRef/Eq/Hash/Display/Debug/to_string/String::from/into_bytes parity, \
          split_at at every index 0..len+1 with panic parity (recursively on both halves, one level, for values of <= 5 bytes), slice_ref of every char-boundary sub-slice, foreign equal-content slice must panic, \
